@@ -24,16 +24,34 @@ macro_rules! say {
     };
 }
 
-/// C03 only: an `Enr<CombinedKey>` updated with keys of *both* schemes, depth 2 over the core
-/// alphabet. No model (the statements do not cover cross-scheme updates); oracle = no panic.
+/// `Enr<CombinedKey>` updated with keys of *both* schemes, depth 2 over the core alphabet, in
+/// lock-step with R-map generalised to one key name per signer (the signer's public key goes under
+/// the signer's own key name; the other scheme's entry is an ordinary pair). C05 does not cover
+/// cross-scheme updates (its statement says "another key of the same signature scheme"), so the
+/// validity invariant is not evaluated here; C03 (no panic), C06 (Err => untouched), C07 (seq),
+/// C08 (pairs, returns, error kinds) and C09 (size) are.
 pub fn cross_scheme_histories(rep: &mut Report) {
     let mut scratch = Report::default();
-    let roots: Vec<Enr<CombinedKey>> = inits()
+    // signer index: 0 = secp k0, 1 = ed k0, 2 = secp k1, 3 = ed k1
+    let si = SchemeInfo {
+        key_names: vec![b"secp256k1".to_vec(), b"ed25519".to_vec(), b"secp256k1".to_vec(), b"ed25519".to_vec()],
+        pk_raw: vec![
+            crate::rlp::enc_str(&CombSecpS::pub_raw(0)),
+            crate::rlp::enc_str(&CombEdS::pub_raw(0)),
+            crate::rlp::enc_str(&CombSecpS::pub_raw(1)),
+            crate::rlp::enc_str(&CombEdS::pub_raw(1)),
+        ],
+    };
+    struct X {
+        e: Enr<CombinedKey>,
+        m: MState,
+    }
+    let roots: Vec<X> = inits()
         .iter()
         .filter(|i| ["minimal", "all6+custom", "minimal@seq2^64-2", "minimal@seq2^64-1", "pad300@seq127"].contains(&i.label.as_str()))
         .flat_map(|i| {
-            let a = hist::make_init::<CombSecpS>(i, &mut scratch).map(|n| n.enr);
-            let b = hist::make_init::<CombEdS>(i, &mut scratch).map(|n| n.enr);
+            let a = hist::make_init::<CombSecpS>(i, &mut scratch).map(|n| X { e: n.enr, m: MState { owner: 0, ..n.m } });
+            let b = hist::make_init::<CombEdS>(i, &mut scratch).map(|n| X { e: n.enr, m: MState { owner: 1, ..n.m } });
             a.into_iter().chain(b)
         })
         .collect();
@@ -50,64 +68,102 @@ pub fn cross_scheme_histories(rep: &mut Report) {
     let mut frontier = roots;
     let mut total = 0u64;
     for depth in 1..=2 {
-        let outs: Vec<(Option<Enr<CombinedKey>>, Vec<Viol>)> = frontier
+        let outs: Vec<(Option<X>, Vec<Viol>)> = frontier
             .par_iter()
-            .flat_map_iter(|e| acts.iter().flat_map(move |a| (0..4usize).map(move |k| (e, a, k))))
-            .map(|(e, a, ki)| {
+            .flat_map_iter(|x| acts.iter().flat_map(move |a| (0..4usize).map(move |k| (x, a, k))))
+            .map(|(x, a, ki)| {
+                let e = &x.e;
                 let mut e2 = e.clone();
                 let key = mk(ki);
                 let out = real::apply(&mut e2, a, &key, &pks);
-                let mut v = vec![];
-                let mut v2: Vec<Viol> = vec![];
+                let step = Step { act: a.clone(), signer: ki, siglen: 64 };
+                let pred = predict(&x.m, &step, &si);
+                let mut v: Vec<Viol> = vec![];
                 let keyl = ["secp-k0", "ed-k0", "secp-k1", "ed-k1"][ki];
-                let mut bad = |clause: String, p: String| {
-                    v.push(Viol {
-                        prop: "C03",
-                        sig: format!("C03|combined cross-scheme|{}|signer={keyl}|{clause}", a.label()),
-                        what: format!("Enr<CombinedKey> {} signed by {keyl} at depth {depth}: {clause}: {p}", a.label()),
-                        rank: depth,
-                        replay: json!({"engine":"cross-scheme","start_hex":hex::encode(real::encode(e)),"act":a,"signer":keyl}),
-                    });
-                };
-                if let ROut::Panic(p) = &out {
-                    bad("mutator panics".into(), p.clone());
-                }
-                // statement-level oracles that need no model: C07 (+1 / exact set / no wrap) and C06 (Err => untouched)
-                let (before, after) = (real::observe(e), real::observe(&e2));
+                let ownerl = ["secp-k0", "ed-k0", "secp-k1", "ed-k1"][x.m.owner];
                 let mut other = |prop: &'static str, clause: String| {
-                    v2.push(Viol {
+                    v.push(Viol {
                         prop,
-                        sig: format!("{prop}|combined cross-scheme|{}|signer={keyl}|{clause}", a.label()),
-                        what: format!("Enr<CombinedKey> {} signed by {keyl} at depth {depth}: {clause}", a.label()),
+                        sig: format!("{prop}|combined cross-scheme|{}|record of {ownerl} signed by {keyl}|{}", a.label(), clause.split(':').next().unwrap_or("")),
+                        what: format!("Enr<CombinedKey> (carrying the key of {ownerl}) {} signed by {keyl} at depth {depth}: {clause}", a.label()),
                         rank: depth,
-                        replay: json!({"engine":"cross-scheme","start_hex":hex::encode(real::encode(e)),"act":a,"signer":keyl}),
+                        replay: json!({"engine":"cross-scheme","start_hex":hex::encode(real::encode(e)),"act":a,"signer":keyl,"clause":clause}),
                     });
                 };
+                for (l, p) in real::sweep(&e2, &PROBE_KEYS) {
+                    other("C03", format!("{l} panics on the record held after the call: {p}"));
+                }
+                let (before, after) = (real::observe(e), real::observe(&e2));
+                if after.enc.len() > 300 {
+                    other("C09", format!("the caller holds a record of more than 300 bytes after {}", if matches!(out, ROut::Ok(_)) { "Ok" } else { "Err" }));
+                }
+                if after.size != after.enc.len() {
+                    other("C09", "size() != encoding length".into());
+                }
+                let mut next = None;
                 match &out {
-                    ROut::Ok(_) => {
-                        let want = match a {
-                            Act::SetSeq(v) => Some(*v),
-                            _ => before.seq.checked_add(1),
-                        };
-                        match want {
-                            Some(w) if after.seq != w => other("C07", format!("sequence number after a successful update is {} (expected {})", seq_label(after.seq), seq_label(w))),
-                            None => other("C07", "update at 2^64-1 succeeded".into()),
-                            _ => {}
-                        }
-                    }
+                    ROut::Panic(p) => other("C03", format!("mutator panics: {p}")),
                     ROut::Err(k) => {
                         if before != after {
                             other("C06", format!("record changed after Err({k:?})"));
                         }
+                        if pred.errs.is_empty() {
+                            if *k == ErrKind::ExceedsMaxSize {
+                                other("C09", "refused for size although the result fits".into());
+                            } else {
+                                other("C08", format!("call must succeed but returned Err({k:?})"));
+                            }
+                        } else if !pred.errs.contains(k) {
+                            other(if *k == ErrKind::ExceedsMaxSize { "C09" } else { "C08" }, format!("error kind {k:?} does not match the cause: admissible {:?}", pred.errs));
+                        }
                     }
-                    ROut::Panic(_) => {}
+                    ROut::Ok(ret) => {
+                        let rp: Pairs = after.pairs.iter().cloned().collect();
+                        match &pred.ok {
+                            None => {
+                                if pred.forced == vec![ErrKind::SequenceNumberTooHigh] {
+                                    other("C07", "update at 2^64-1 succeeded".into());
+                                } else if pred.forced == vec![ErrKind::ExceedsMaxSize] && pred.would.as_ref().map_or(false, |w| w.pairs == rp) {
+                                    other("C09", "accepted although the result exceeds 300 bytes".into());
+                                }
+                            }
+                            Some(ok) => {
+                                if after.seq != ok.state.seq {
+                                    other("C07", format!("sequence number after a successful update is {} (expected {})", seq_label(after.seq), seq_label(ok.state.seq)));
+                                }
+                                if rp != ok.state.pairs {
+                                    let diff: Vec<String> = rp
+                                        .keys()
+                                        .chain(ok.state.pairs.keys())
+                                        .filter(|k| rp.get(*k) != ok.state.pairs.get(*k))
+                                        .map(|k| String::from_utf8_lossy(k).to_string())
+                                        .collect::<std::collections::BTreeSet<_>>()
+                                        .into_iter()
+                                        .collect();
+                                    other("C08", format!("pairs differ from the map model at keys {diff:?}"));
+                                } else if after.seq == ok.state.seq {
+                                    let matches = match (&ok.ret, ret) {
+                                        (MRet::Unit, real::RRet::Unit) => true,
+                                        (MRet::Prev(a), real::RRet::Prev(b)) => a == b,
+                                        (MRet::PrevIp(a), real::RRet::PrevIp(b)) => a == b,
+                                        (MRet::PrevPort(a), real::RRet::PrevPort(b)) => a == b,
+                                        (MRet::Lists(a1, a2), real::RRet::Lists(b1, b2)) => {
+                                            a1.len() == b1.len() && a2.len() == b2.len() && a1.iter().zip(b1).all(|(s, v)| s.admits(v)) && a2.iter().zip(b2).all(|(s, v)| s.admits(v))
+                                        }
+                                        _ => false,
+                                    };
+                                    if !matches {
+                                        other("C08", format!("return value differs from the map model: got {ret:?} want {:?}", ok.ret));
+                                    }
+                                    if depth == 1 && (ki == 0 || ki == 1) {
+                                        next = Some(X { e: e2.clone(), m: ok.state.clone() });
+                                    }
+                                }
+                            }
+                        }
+                    }
                 }
-                for (l, p) in real::sweep(&e2, &PROBE_KEYS) {
-                    bad(format!("{l} panics on the record held after the call"), p);
-                }
-                let keep = matches!(out, ROut::Ok(_)) && v.is_empty() && depth == 1 && (ki == 0 || ki == 1);
-                v.extend(v2);
-                (if keep { Some(e2) } else { None }, v)
+                (next, v)
             })
             .collect();
         let mut next = vec![];
@@ -116,16 +172,16 @@ pub fn cross_scheme_histories(rep: &mut Report) {
             total += 1;
             rep.viols.extend(v);
             if let Some(n) = n {
-                let key: (u64, Vec<(Vec<u8>, Vec<u8>)>) = (n.seq(), n.iter().map(|(k, v)| (k.clone(), v.to_vec())).collect());
-                if seen.insert(key) && next.len() < 400 {
+                if seen.insert(n.m.clone()) && next.len() < 600 {
                     next.push(n);
                 }
             }
         }
+        rep.compact_if_large();
         frontier = next;
     }
     rep.stats.transitions += total;
-    rep.stats.class_n("c03:cross-scheme-transitions", total);
+    rep.stats.class_n("cross-scheme:transitions", total);
 }
 
 fn replay_hist<S: Sch>(v: &Value) -> i32 {
